@@ -124,7 +124,18 @@ def pair_continuation(ctx, i, spec, n, rng, case):
             op_['T_via'] = rng.choice(GEN.time_units_for(GEN.qsi(dt)))
             op_['dt_via'] = rng.choice(GEN.time_units_for(GEN.qsi(dt)))
         sched.append(op_)
-    split['schedule'] = sched
+    if rng.random() < 0.25:
+        # between the parts of the split run ANOTHER independent model is built and advanced (module-level state, class
+        # attributes and caches shared between objects would make the split history differ from the single run)
+        other = GEN.gen_scenario(rng, dict(_nested=True, p_continue=1.0, n_lo=4, n_hi=12, max_stages=2), None)
+        other.pop('_ref', None)
+        sched2 = []
+        for o_ in sched:
+            sched2 += [o_, {'op': 'bystander', 'spec': other}]
+        split['schedule'] = sched2[:-1]
+        ctx.count('pairs_with_a_bystander_model')
+    else:
+        split['schedule'] = sched
     case = dict(case, pair='continuation')
     try:
         b1, r1, t1 = execute(single)
